@@ -234,6 +234,22 @@ class Matcher:
         if isinstance(node, rx.Rep):
             yield from self._rep(node, pos, caps)
             return
+        if isinstance(node, rx.BackRef):
+            if not isinstance(node.ref, int):
+                raise Undecided("symbolic back-reference")
+            span = caps.get(node.ref)
+            if span is None:
+                return                      # the group did not take part: the back-reference fails
+            want = self.s[span[0]:span[1]]
+            got = self.s[pos:pos + len(want)]
+            if got == want:
+                yield pos + len(want), caps
+                return
+            # different symbols: equal texts are possible only between tokens (or a token and literal text) - generic
+            # tokens denote different texts, literal characters are compared exactly
+            if all(isinstance(a, str) for a in want) and all(isinstance(b, str) for b in self.s[pos:pos + len(want) + 1]):
+                return
+            return
         raise Undecided(f"regex construct {type(node).__name__}")
 
     def _seq(self, items: List[rx.Node], i: int, pos: int, caps) -> Iterator[Tuple[int, dict]]:
